@@ -22,25 +22,29 @@ Proof.
   - intros [H1 H2] p Hp. apply orb_false_iff. split; apply N.eqb_neq; auto.
 Qed.
 
-Theorem strip_rejects_not_alters_proof : forall h lt h' s i j,
-  strip_from_match h lt = inl h' ->
+Definition norm_ok (norm : hir -> hir) : Prop :=
+  forall h s i j, Matches (norm h) s i j <-> Matches h s i j.
+
+Theorem strip_rejects_not_alters_proof : forall norm, norm_ok norm -> forall h lt h' s i j,
+  strip_from_match norm h lt = inl h' ->
   (Matches h' s i j <-> Matches h s i j /\ term_free lt s i j).
 Proof.
-  intros h lt h' s i j. unfold strip_from_match, strip_from_match_ascii. destruct lt as [b|].
+  intros norm Hn h lt h' s i j. unfold strip_from_match, strip_from_match_ascii. destruct lt as [b|].
   - destruct (127 <? b)%N eqn:E; [discriminate|]. apply N.ltb_ge in E. intro H.
     rewrite term_free_byte. now apply strip_ascii_iff.
   - cbn [N.ltb]. change (127 <? 13)%N with false. change (127 <? 10)%N with false.
     destruct (strip_ascii 13 h) as [h1|e] eqn:E1; [|discriminate]. intro E2.
     rewrite term_free_crlf.
-    rewrite (strip_ascii_iff 10 ltac:(lia) h1 h' s i j E2).
+    rewrite (strip_ascii_iff 10 ltac:(lia) (norm h1) h' s i j E2).
+    rewrite (Hn h1 s i j).
     rewrite (strip_ascii_iff 13 ltac:(lia) h h1 s i j E1). tauto.
 Qed.
 
-Theorem strip_sound_proof : forall h lt h' s i j,
-  strip_from_match h lt = inl h' -> Matches h' s i j ->
+Theorem strip_sound_proof : forall norm, norm_ok norm -> forall h lt h' s i j,
+  strip_from_match norm h lt = inl h' -> Matches h' s i j ->
   forall p, i <= p < j -> is_term_byte lt (byte_at s p) = false.
 Proof.
-  intros h lt h' s i j H M. apply (strip_rejects_not_alters_proof _ _ _ s i j H) in M. apply M.
+  intros norm Hn h lt h' s i j H M. apply (strip_rejects_not_alters_proof norm Hn _ _ _ s i j H) in M. apply M.
 Qed.
 
 (* ---- when strip rejects ---- *)
@@ -90,14 +94,14 @@ Proof.
     + injection G as <-. destruct (Hx _ eq_refl) as [-> F]. split; [reflexivity|]. now rewrite F.
 Qed.
 
-Theorem strip_error_witness_proof : forall h lt e,
-  strip_from_match h lt = inr e ->
+Theorem strip_error_witness_proof : forall norm h lt e,
+  strip_from_match norm h lt = inr e ->
   (exists b, lt = RTByte b /\ (127 < b)%N /\ e = EInvalidLineTerminator b) \/
   (exists b, is_term_byte lt b = true /\ e = ENotAllowed b /\
              (forced_leaf b h = true \/
-              exists h1, lt = RTCrlf /\ strip_ascii 13 h = inl h1 /\ forced_leaf 10 h1 = true)).
+              exists h1, lt = RTCrlf /\ strip_ascii 13 h = inl h1 /\ forced_leaf 10 (norm h1) = true)).
 Proof.
-  intros h lt e. unfold strip_from_match, strip_from_match_ascii. destruct lt as [b|].
+  intros norm h lt e. unfold strip_from_match, strip_from_match_ascii. destruct lt as [b|].
   - destruct (127 <? b)%N eqn:E.
     + intro H; injection H as <-. left. exists b. apply N.ltb_lt in E. auto.
     + intro H. apply strip_ascii_error in H as [-> F]. right. exists b. cbn. rewrite N.eqb_refl. auto.
@@ -255,25 +259,25 @@ Qed.
 Lemma wrap_inner c h s i j : Matches (wrap c h) s i j -> Matches h s i j.
 Proof. intro M. now apply wrap_iff in M. Qed.
 
-Theorem terminator_withheld_proof : forall c tr f adv,
-  build c tr = inl (f, adv) ->
+Theorem terminator_withheld_proof : forall norm c tr f adv,
+  build norm c tr = inl (f, adv) ->
   (contains_anchor_haystack f = true -> adv = None) /\
   (contains_anchor_haystack f = false -> adv = c_line_terminator c).
 Proof.
-  intros c tr f adv. unfold build. destruct (configure c tr) as [h|e]; [|discriminate].
+  intros norm c tr f adv. unfold build. destruct (configure norm c tr) as [h|e]; [|discriminate].
   intro H; injection H as <- <-. unfold advertised_terminator.
   destruct (contains_anchor_haystack (wrap c h)); split; congruence.
 Qed.
 
 (* the promise the matcher makes when it advertises a line terminator *)
-Theorem build_line_terminator_promise_proof : forall c tr f lt s i j,
-  build c tr = inl (f, Some lt) -> Matches f s i j ->
+Theorem build_line_terminator_promise_proof : forall norm, norm_ok norm -> forall c tr f lt s i j,
+  build norm c tr = inl (f, Some lt) -> Matches f s i j ->
   forall p, i <= p < j -> is_term_byte lt (byte_at s p) = false.
 Proof.
-  intros c tr f lt s i j. unfold build. destruct (configure c tr) as [h|e] eqn:E; [|discriminate].
+  intros norm Hn c tr f lt s i j. unfold build. destruct (configure norm c tr) as [h|e] eqn:E; [|discriminate].
   intro H; injection H as <- Ha. unfold advertised_terminator in Ha.
   destruct (contains_anchor_haystack (wrap c h)); [discriminate|].
   unfold configure in E. destruct (match c_ban c with Some b => ban_check b tr | None => None end); [discriminate|].
   rewrite Ha in E. intro M. apply wrap_inner in M.
-  exact (strip_sound_proof _ _ _ _ _ _ E M).
+  exact (strip_sound_proof norm Hn _ _ _ _ _ _ E M).
 Qed.
